@@ -614,6 +614,7 @@ LOOP_CONSTRUCTS = [
     ("trino", "WITH FUNCTION f(x INT) RETURNS INT BEGIN DECLARE y INT; SET y = 1; IF x > 1 THEN RETURN 1; ELSEIF x > 2 THEN RETURN 2; ELSE RETURN 3; END IF; "
               "CASE WHEN x = 1 THEN RETURN 1; WHEN x = 2 THEN RETURN 2; END CASE; WHILE y < 3 DO SET y = y + 1; END WHILE; RETURN y; END SELECT f(1)"),
     ("trino", "WITH FUNCTION g(x INT) RETURNS INT BEGIN CASE x WHEN 1 THEN RETURN 1; ELSE RETURN 2; END CASE; l: LOOP LEAVE l; END LOOP; REPEAT SET x = 1; UNTIL x > 1 END REPEAT; RETURN 0; END SELECT g(2)"),
+    ("snowflake", "SELECT * FROM SEMANTIC_VIEW(tbl METRICS a.b, a.c DIMENSIONS c.d FACTS e.f WHERE c.d > 1) ORDER BY 1"),
     ("clickhouse", "SELECT COLUMNS('a') APPLY (sum) APPLY (max) FROM t"),
     ("oracle", "SELECT /*+ LEADING(a b) USE_NL(a) INDEX(t i) */ a FROM t"),
     ("bigquery", "SELECT * FROM my-project.my-dataset.my-table"),
@@ -635,6 +636,24 @@ LOOP_CONSTRUCTS = [
     ("postgres", "CREATE FUNCTION f(x INT) RETURNS INT CALLED ON NULL INPUT LANGUAGE sql IMMUTABLE AS 'SELECT 1'"),
     ("snowflake", "CREATE TABLE t (a INT AUTOINCREMENT START 1 INCREMENT 1, b INT WITH MASKING POLICY p USING (b)) CLUSTER BY (a) COPY GRANTS"),
 ]
+
+
+TYPE_NAMES = ["DECIMAL", "NUMERIC", "BIGNUMERIC", "BIGDECIMAL", "DECFLOAT", "NUMBER", "FLOAT", "DOUBLE", "VARCHAR", "CHAR", "NVARCHAR", "BINARY", "VARBINARY", "BIT",
+              "INT", "BIGINT", "TIMESTAMP", "TIMESTAMPTZ", "TIME", "DATETIME", "DATETIME2", "DATE", "INTERVAL", "ARRAY", "MAP", "STRUCT", "JSON", "UUID", "GEOGRAPHY"]
+TYPE_PARAM_DIALECTS = ["", "bigquery", "snowflake", "duckdb", "postgres", "mysql", "tsql", "clickhouse", "spark", "oracle", "trino", "redshift"]
+
+
+def type_param_items(tier):
+    """every type name with 1..4 (quick) / 1..6 numeric parameters, in CAST and in a column definition: generators index
+    per-type tables of parameter bounds / defaults by position, the parser accepts any number of parameters"""
+    out = []
+    for ty in TYPE_NAMES:
+        for k in range(1, 5 if tier == "quick" else 7):
+            ps = ", ".join(["20", "4", "4", "1", "2", "3"][:k])
+            for d in TYPE_PARAM_DIALECTS:
+                out.append((f"SELECT CAST(x AS {ty}({ps})) FROM t", d, ("IMMEDIATE", "IGNORE")))
+                out.append((f"CREATE TABLE t (c {ty}({ps}))", d, ("IMMEDIATE",)))
+    return out
 
 
 def loop_construct_items(tier):
@@ -685,7 +704,9 @@ def items_for(tier):
         stats["scaling_repetitions"] = len(sc_)
         lc = loop_construct_items(tier)
         stats["loop_construct_mutations"] = len(lc)
-        items += b + c + sp + ch + sc_ + lc
+        tp = type_param_items(tier)
+        stats["type_parameters"] = len(tp)
+        items += b + c + sp + ch + sc_ + lc + tp
     else:
         b = [(m, d, all4) for m in muts for d in ds]
         stats["mutations"] = len(b)
@@ -699,7 +720,9 @@ def items_for(tier):
         stats["scaling_repetitions"] = len(sc_)
         lc = loop_construct_items(tier)
         stats["loop_construct_mutations"] = len(lc)
-        items += b + c + sp + ch + sc_ + lc
+        tp = type_param_items(tier)
+        stats["type_parameters"] = len(tp)
+        items += b + c + sp + ch + sc_ + lc + tp
     return items, stats
 
 
